@@ -315,14 +315,32 @@ func cmdCheck(args []string) {
 	os.MkdirAll(replayDir, 0o755)
 	var kfLines []string
 	nviol := 0
+	cexTried := 0
 	var violNames []string
 	for _, v := range viols {
 		if k, ok := known[v.ob.Name]; ok {
 			kfLines = append(kfLines, fmt.Sprintf("KNOWN-FINDING: property=%s %s (%s)", *prop, k.What, v.ob.Name))
 			continue
 		}
-		path := writeReplay(replayDir, *prop, v.ob, vcOf[v.ob], v.reason)
+		var cex *Cex
+		if panicKind(v.ob.Kind) && cexTried < 4 && vcOf[v.ob] != nil {
+			cexTried++
+			for attempt := 0; attempt < 3; attempt++ {
+				c := vcOf[v.ob].tryCounterexample(v.ob, attempt)
+				if c == nil {
+					break
+				}
+				cex = c
+				if c.Confirmed {
+					break
+				}
+			}
+		}
+		path := writeReplay(replayDir, *prop, v.ob, vcOf[v.ob], v.reason, cex)
 		suffix := " no-failing-input-found"
+		if cex != nil && cex.Confirmed {
+			suffix = " failing-input-replayed-on-real-code"
+		}
 		fmt.Printf("VIOLATION property=%s replay=%s obligation=%q result=%s%s\n", *prop, path, v.ob.Name, v.ob.Result, suffix)
 		nviol++
 		violNames = append(violNames, v.ob.Name)
@@ -435,18 +453,36 @@ func parallelDo(n int, f func(i int)) {
 	}
 }
 
-func writeReplay(dir, prop string, ob *Obligation, vc *VC, reason string) string {
+func writeReplay(dir, prop string, ob *Obligation, vc *VC, reason string, cex *Cex) string {
 	path := filepath.Join(dir, fmt.Sprintf("%s-%s-%d.txt", prop, sanitize(ob.Name), ob.Index))
 	var b strings.Builder
 	fmt.Fprintf(&b, "property: %s\nobligation: %s\nkind: %s\nfunction: %s\nsource: %s\nreason: %s\nsolver: %s result: %s\n\n", prop, ob.Name, ob.Kind, ob.Fn, ob.Pos, reason, ob.Solver, ob.Result)
 	fmt.Fprintf(&b, "goal (must be valid under the facts of the function's verification condition):\n  guard: %s\n  cond:  %s\n\n", ob.Guard, ob.Cond)
-	if ob.Model != "" {
+	switch {
+	case cex != nil && cex.Confirmed:
+		b.WriteString("counterexample: the solver's candidate model of the entry state was turned into Go values and the\nreal function was run on them (go test -overlay, nothing written to the repository): " + cex.Note + "\n")
+	case cex != nil && cex.TestSrc != "":
+		b.WriteString("a candidate model was turned into Go values and run against the real code, but it did not reproduce\nthe failure (" + cex.Note + "): no-failing-input-found\n")
+	case ob.Model != "":
 		b.WriteString("counterexample model returned by the solver (entry state of the function):\n")
 		b.WriteString(filterModel(ob.Model))
-	} else {
+	default:
 		b.WriteString("the solver returned no model (unknown/timeout): no-failing-input-found\n")
+		if cex != nil && cex.Note != "" {
+			b.WriteString("(" + cex.Note + ")\n")
+		}
 	}
 	b.WriteString("\nTo re-run: govc dump -fn '" + ob.Fn + "' -ob " + strconv.Itoa(ob.Index) + " | z3-new -in\n")
+	if cex != nil && cex.TestSrc != "" {
+		b.WriteString("\n--- BEGIN GO TEST (govc replay <this file> re-runs it on the current tree) ---\n")
+		b.WriteString(cex.TestSrc)
+		b.WriteString("--- END GO TEST ---\n\n--- output of the test on the tree that was checked ---\n")
+		out := cex.Output
+		if len(out) > 6000 {
+			out = out[:6000] + "\n...(truncated)\n"
+		}
+		b.WriteString(out)
+	}
 	os.WriteFile(path, []byte(b.String()), 0o644)
 	return path
 }
